@@ -410,6 +410,18 @@ def special_bodies():
                 "boundary*=''", "boundary*=utf-8", "boundary*=utf-8'", "charset*=utf-8''utf-8; boundary=bnd", "boundary=bnd; charset*=x''%00"):
         yield f"multipart/form-data; {ext}", MP_BASE, "form"
         yield f"application/json; {ext.replace('boundary', 'charset')}", JSON_BASE, "json"
+    # header lines of a *part* are client text as well: a size, a coding, a date, a type with parameters - in the field part, in the
+    # file part, with values nobody can convert
+    for hname in (b"Content-Length", b"Content-Transfer-Encoding", b"Content-Range", b"Content-Encoding", b"Content-Type", b"Content-Disposition", b"Date", b"Expires", b"Content-MD5", b"X-File-Size", b"Content-Id"):
+        for hval in NUMS + ["12abc", "12.0", "\xb2", "base64", "quoted-printable", "bytes 0-1/x", 'x; charset="', "; ;", "=?utf-8?b?////?=", "\xff"]:
+            try:
+                line = hname + b": " + hval.encode("latin-1") + b"\r\n"
+            except UnicodeEncodeError:
+                line = hname + b": " + hval.encode("utf-8") + b"\r\n"
+            for anchor in (b'name="f"\r\n', b'filename="a.txt"\r\n'):
+                if anchor in MP_BASE:
+                    yield "multipart/form-data; boundary=bnd", MP_BASE.replace(anchor, anchor + line, 1), "form"
+            yield "multipart/form-data; boundary=bnd", MP_BASE.replace(b"--bnd\r\n", b"--bnd\r\n" + line), "form"
     yield "multipart/form-data", MP_BASE, "form"
     yield "multipart/form-data; boundary=bnd", b"--bnd\r\nno colon here\r\n\r\nx\r\n--bnd--\r\n", "form"
     yield "multipart/form-data; boundary=bnd", b"--bnd\r\nContent-Disposition\r\n\r\nx\r\n--bnd--\r\n", "form"
@@ -526,6 +538,7 @@ def shards(tier, seed):
     out += [("filehdr", name) for name in ("Range", "If-Range", "If-None-Match", "If-Modified-Since")]
     out += [("hostdispatch", k, 4) for k in range(4)]
     out += [("overlap", label) for label in ("wsgi:oneobject", "asgi:oneobject", "zerocopy:oneobject")]
+    out += [("scarce", iface) for iface in ("wsgi", "asgi")]
     out += [("python-O", ("paths", k, 4)) for k in range(4)] + [("python-O", ("hostdispatch", 0, 4)), ("python-O", ("vanished",))]
     return out
 
@@ -533,7 +546,7 @@ def shards(tier, seed):
 class Tree:
     def __init__(self):
         self.dir = tempfile.mkdtemp(prefix="c12-", dir=os.environ.get("VERIF_SCRATCH", "/tmp"))
-        for rel, data in {"file.txt": b"0123456789", "index.html": b"<i>", "files/é.txt": b"e", "sub/index.html": b"s"}.items():
+        for rel, data in {"file.txt": b"0123456789", "index.html": b"<i>", "files/é.txt": b"e", "sub/index.html": b"s", "empty.txt": b"", "void/index.html": b""}.items():
             p = os.path.join(self.dir, rel)
             os.makedirs(os.path.dirname(p), exist_ok=True)
             with open(p, "wb") as f:
@@ -543,8 +556,65 @@ class Tree:
         shutil.rmtree(self.dir, ignore_errors=True)
 
 
+SCARCE_REQUESTS = [(m, hs) for m in ("GET", "HEAD") for hs in ([], [("Range", "bytes=0-1")], [("Range", "bytes=0-1, 4-5")], [("Range", "bytes=0-1, 4-5, 8-")], [("Range", "bytes=99-")], [("Range", "x")],
+                                                           [("If-None-Match", "*")], [("Range", "bytes=0-1, 4-5"), ("If-Range", '"other"')])]
+SCARCE_TARGETS = [("/file.txt", "file.txt"), ("/sub/", "sub/index.html"), ("/missing", None), ("/empty.txt", "empty.txt")]
+SCARCE_REPEATS = 40
+SCARCE_SPARE = 16
+
+
+def scarce_history(iface, aname, tpath, rel, method, hs, r=None):
+    """One application object answers the same request SCARCE_REPEATS times, then a plain GET - in a process that may open
+    SCARCE_SPARE more descriptors than it holds now. Returns the first exception that is not an HTTP error (with the request
+    number), or None."""
+    import resource
+    from baize import wsgi as W, asgi as A
+
+    m = W if iface == "wsgi" else A
+    t = Tree()
+    soft, hard = resource.getrlimit(resource.RLIMIT_NOFILE)
+    try:
+        app = m.FileResponse(os.path.join(t.dir, rel), chunk_size=4) if aname == "FileResponse" else getattr(m, aname)(t.dir)
+        held = len(os.listdir("/proc/self/fd"))
+        resource.setrlimit(resource.RLIMIT_NOFILE, (held + SCARCE_SPARE, hard))
+        areq = SV.AReq(method=method, path=tpath, headers=[("Host", "example.com")] + list(hs))
+        for k in range(SCARCE_REPEATS + 1):
+            if r is not None:
+                r.count("evaluations")
+            res = call_app(iface, app, areq if k < SCARCE_REPEATS else SV.AReq(path=tpath, headers=[("Host", "example.com")]))
+            if res.exc is not None and not allowed(res.exc):
+                return k, res.exc
+        return None
+    finally:
+        resource.setrlimit(resource.RLIMIT_NOFILE, (soft, hard))
+        t.close()
+
+
+def run_shard_fresh(desc, tier):
+    r = R()
+    iface = desc[1]
+    for aname in ("FileResponse", "Files", "Pages"):
+        for tpath, rel in SCARCE_TARGETS:
+            if aname == "FileResponse" and rel is None:
+                continue
+            for method, hs in SCARCE_REQUESTS:
+                r.count("distinct_nontrivial")
+                hit = scarce_history(iface, aname, tpath, rel, method, hs, r)
+                if hit:
+                    report(r, aname, iface, hit[1], {"kind": "scarce", "app": aname, "target": tpath, "rel": rel, "method": method, "headers": [list(h) for h in hs]},
+                           f"{method} {tpath} {hs} answered {hit[0]} times by one application object, then once more, in a process that may open {SCARCE_SPARE} more descriptors than it held at the start")
+    r.sample({"scarce": iface, "requests": len(SCARCE_REQUESTS), "targets": [t[0] for t in SCARCE_TARGETS], "repeats": SCARCE_REPEATS, "spare_descriptors": SCARCE_SPARE})
+    return r
+
+
 def run_shard(desc, tier):
     r = R()
+    if desc[0] == "scarce":
+        # a request that is answered correctly and leaves something open behind it is a hostile input too, sent often enough:
+        # the same request many times over in a process with few spare descriptors (a fresh interpreter, so that the limit
+        # touches nothing else), then an ordinary one
+        from ..core import fresh
+        return fresh.call(__name__, ("scarce-run", desc[1]), tier)
     if desc[0] == "python-O":
         # the same family in an interpreter that runs with assert statements compiled away
         from ..core import fresh
@@ -732,19 +802,22 @@ def run_shard(desc, tier):
                     if v not in seen:
                         seen.add(v)
                         vals.append(v)
+            # the file behind the path: ten bytes, one byte, none at all (also as the index page of a directory)
+            targets = [("/file.txt", "file.txt", "GET"), ("/empty.txt", "empty.txt", "GET"), ("/empty.txt", "empty.txt", "HEAD"), ("/files/é.txt", "files/é.txt", "GET"), ("/void/", "void/index.html", "GET")]
             for v in vals:
                 headers = [(name, v)] + ([("Range", "bytes=0-1")] if name == "If-Range" else [])
-                areq = SV.AReq(path="/file.txt", headers=headers)
-                for iface, m in (("wsgi", W), ("asgi", A)):
-                    for aname, app in (("FileResponse", m.FileResponse(path, chunk_size=4)), ("Files", m.Files(t.dir)), ("Pages", m.Pages(t.dir))):
-                        r.count("evaluations")
-                        r.count("distinct_nontrivial")
-                        try:
-                            res = call_app(iface, app, areq)
-                        except UnicodeEncodeError:
-                            continue
-                        if res.exc is not None and not allowed(res.exc):
-                            report(r, aname, iface, res.exc, {"kind": "filehdr", "name": name, "value": v}, f"{name}: {v!r:.60}")
+                for tpath, rel, method in targets:
+                    areq = SV.AReq(method=method, path=tpath, headers=headers)
+                    for iface, m in (("wsgi", W), ("asgi", A)):
+                        for aname, app in (("FileResponse", m.FileResponse(os.path.join(t.dir, rel), chunk_size=4)), ("Files", m.Files(t.dir)), ("Pages", m.Pages(t.dir))):
+                            r.count("evaluations")
+                            r.count("distinct_nontrivial")
+                            try:
+                                res = call_app(iface, app, areq)
+                            except UnicodeEncodeError:
+                                continue
+                            if res.exc is not None and not allowed(res.exc):
+                                report(r, aname, iface, res.exc, {"kind": "filehdr", "name": name, "value": v, "target": tpath, "method": method}, f"{method} {tpath} with {name}: {v!r:.60}")
             r.sample({"header": name, "values": len(vals)})
         finally:
             t.close()
@@ -777,6 +850,10 @@ def replay(w):
             probe_body(r, w["ctype"], b, w["accessor"], chunks=[b[:1], b[1:len(b) // 2], b"", b[len(b) // 2:]])
     elif k == "vanished":
         vanished(r)
+    elif k == "scarce":
+        from ..core import fresh
+        rr = fresh.call(__name__, ("scarce-run", w["iface"]), "quick")
+        r.viol = {s: v for s, v in rr.viol.items() if v[1].get("app") == w["app"] and v[1].get("target") == w["target"]}
     elif k == "coded-body":
         areq = SV.AReq(method="POST", headers=[("Content-Type", w["ctype"]), ("Content-Encoding", w["coding"])], chunks=[w["body"][:5], w["body"][5:]])
         for iface in ("wsgi", "asgi"):
@@ -845,5 +922,5 @@ def replay(w):
             t.close()
     else:
         rr = run_shard(("filehdr", w["name"]), "quick")
-        r.viol = {s: v for s, v in rr.viol.items() if v[1].get("value") == w["value"]}
+        r.viol = {s: v for s, v in rr.viol.items() if v[1].get("value") == w["value"] and v[1].get("target", "/file.txt") == w.get("target", "/file.txt")}
     return bool(r.viol), {"violations": sorted(r.viol), "texts": [v[2][:300] for v in r.viol.values()]}
